@@ -11,3 +11,7 @@ var vRecvYield = func() {}
 // vFinalizeYield is called by the replay-instrumented copy of multistream.go before every FileDoneFn
 // callback site (native replays widen the window in which a file is being finalised).
 var vFinalizeYield = func() {}
+
+// vBeforeCreate is called by the replay-instrumented copy of handleFileBegin right before the data file
+// is created / re-created at its full size.
+var vBeforeCreate = func(path string) {}
